@@ -62,10 +62,23 @@ let exec (t : string list) : string list =
            match r with
            | Ok w ->
                let pv = L.init nprobe (fun i -> n_of_int (probe_val i)) in
+               (* step 3: the pushed values are written (fill with the extended contents; the deleted
+                  slots stay), then the SAME request once more *)
+               let fam2 = fam_of q2.q_fmt in
+               let data2 = w.v_data @ pv in
+               let clen2 = n_of_int (size_of ty * L.length data2) in
+               let s2 = fill fam2 size clen2 data2 w.v_holes s' in
+               let (s3, r3) = run_entry oc size None q2 s2 in
+               let rg3 = regs s2 s3 in
                [ "create ok";
                  Printf.sprintf "reopen ok len=%d slots=%s holes=%s regs=%s" (L.length w.v_data)
                    (show_slots (probe w [])) (show_idx w.v_holes) rg;
-                 "probe " ^ show_slots (probe w pv) ]
+                 "probe " ^ show_slots (probe w pv) ^ " write=ok";
+                 (match r3 with
+                  | Ok w3 -> Printf.sprintf "again ok len=%d slots=%s holes=%s regs=%s" (L.length w3.v_data)
+                               (show_slots (probe w3 [])) (show_idx w3.v_holes) rg3
+                  | Err k -> Printf.sprintf "again err %s regs=%s" (ename k) rg3
+                  | Panic -> Printf.sprintf "again panic regs=%s" rg3) ]
            | Err k -> ["create ok"; Printf.sprintf "reopen err %s regs=%s" (ename k) rg]
            | Panic -> ["create ok"; Printf.sprintf "reopen panic regs=%s" rg])
   | _ -> ["err UnknownCase"]
